@@ -52,7 +52,7 @@ top:
 				}
 			}
 		}
-		result = tv
+		result = dupLiteral(tv)
 	case jp.Expr:
 		if 0 < len(tv) {
 			if _, ok := tv[0].(jp.At); ok {
